@@ -85,7 +85,7 @@ func checkStoryFacts(c ExecCase) (v *Violation, f storyFacts) {
 	}{{"verbose", verbose}, {"silent", silent}} {
 		at := fmt.Sprintf("[%s] %q on %s", m.name, c.Path, c.Doc)
 		q, fi, ex, ma, eom := m.o.Query, m.o.First, m.o.Exists, m.o.Match, m.o.EoM
-		qItems := RenderSeq(q.Items, false)
+		qItems := RenderSeq(q.Items, true) // keyvalue ids are C16's business (open finding D30 makes chained ones unstable)
 		if fi.Class != EOK && fi.Item != nil {
 			return violf("%s: First returned both an item and an error", at), f
 		}
@@ -116,11 +116,11 @@ func checkStoryFacts(c ExecCase) (v *Violation, f storyFacts) {
 			if len(qItems) > 0 {
 				want = qItems[0]
 			}
-			if q.Class == EOK && Render(fi.Item, false) != want {
-				return violf("%s: First = %s but Query = %v", at, Render(fi.Item, false), qItems), f
+			if q.Class == EOK && Render(fi.Item, true) != want {
+				return violf("%s: First = %s but Query = %v", at, Render(fi.Item, true), qItems), f
 			}
 		} else if q.Class == EOK && fi.Class == EOK {
-			got := Render(fi.Item, false)
+			got := Render(fi.Item, true)
 			if len(qItems) == 0 && got != "null" {
 				return violf("%s: First = %s but Query is empty", at, got), f
 			}
@@ -251,6 +251,28 @@ func errorPositionCases() []ExecCase {
 	return out
 }
 
+// producerCases: every step that can emit several items, followed by a step
+// that rejects some of them (first / middle / last), so that existence-mode
+// shortcuts, loop exits and status hand-back are exercised at every position.
+func producerCases() []ExecCase {
+	producers := []string{"$[*]", "$[0,1,2]", "$[0 to 2]", "$[0 to last]", "$[2,1,0]", "$.*", "$.**", "$.**{1}", "$.**{1 to 2}", "$.keyvalue().value", "$.a", "$.a[*]", "$.a.*", "-$[*]", "+$[*]", "(-$[*])", "(-$.a)",
+		"$[*].abs()", "$[*].double()", "$[*].string()", "$.a.floor()", "$[*].keyvalue().value", "$.x.y", "$[*].x.y", "$.**.y", "$.**{2}.y", "$[*].*", "($[0] + 1)", "($[*].a[0] * 2)"}
+	followers := []string{"", " ? (@ > 1)", " ? (@ == 1)", " ? (@ < 3)", " ? (@ == 2)", " ? (@.a == 1)", " ? (@.y == 1)", ".a", ".y", "[0]", "[1]", ".double()", ".size()", ".keyvalue()", " ? (exists(@.y))", ".abs() ? (@ > 1)", " ? (@ > 1).type()"}
+	docs := []string{`[1,2,3]`, `[3,2,1]`, `[2,1,2]`, `[1,"x",3]`, `["x",2,3]`, `[1,2,"x"]`, `{"a":[1,2,3]}`, `{"a":[3,"x",1]}`, `{"a":1,"b":2}`, `{"a":2,"b":1}`, `[{"a":1},{"a":2}]`, `[{"a":2},{"a":1}]`,
+		`[{"x":{"y":1}},{"z":2}]`, `[{"z":2},{"x":{"y":1}}]`, `{"x":{"y":1}}`, `[{"a":[1,2]},{"a":[3]}]`, `[[1,2],[3]]`, `{"a":{"p":1,"q":[2,3]}}`, `[{"y":1},{"y":2}]`}
+	var out []ExecCase
+	for _, p := range producers {
+		for _, f := range followers {
+			for _, d := range docs {
+				for _, strict := range []string{"", "strict "} {
+					out = append(out, ExecCase{Path: strict + p + f, Doc: d})
+				}
+			}
+		}
+	}
+	return out
+}
+
 func TestC06(t *testing.T) {
 	ev := newEv(t, "C06")
 	c06Ev = ev
@@ -272,7 +294,7 @@ func TestC06(t *testing.T) {
 	}
 	t.Run("error_positions", func(t *testing.T) {
 		b := ev.enum(t)
-		cs := append(errorPositionCases(), pgCorpusCases()...)
+		cs := append(append(errorPositionCases(), pgCorpusCases()...), producerCases()...)
 		for i, c := range cs {
 			if !mine(i) {
 				continue
